@@ -124,11 +124,22 @@ class Report:
                 lines.append('ANALYSIS-ERROR property=%s rule %s matched %d instances, '
                              'floor confirmed by hand is %d (vacuous pass refused)' % (
                                  self.prop, r, f, e))
+        if self.write and os.path.isdir(REPLAY_DIR):
+            # replay files of earlier runs of this property are stale now
+            import glob as _glob
+            for old_ in _glob.glob(os.path.join(REPLAY_DIR, '%s-*.json' % self.prop)):
+                try:
+                    os.remove(old_)
+                except OSError:
+                    pass
         if new:
             code = 1
             if self.write:
                 os.makedirs(REPLAY_DIR, exist_ok=True)
             for n, (v, _) in enumerate(new):
+                if n >= 30:
+                    lines.append('  ... and %d more violated rule instances in this run (see the evidence file)' % (len(new) - 30))
+                    break
                 path = os.path.join(REPLAY_DIR, '%s-%d.json' % (self.prop, n))
                 if self.write:
                     with open(path, 'w') as f:
